@@ -219,6 +219,22 @@ CLAIMED = {
          "from the implementation; set iteration order is supplied to the model; colorize / capitalize are outside the model; that the "
          "result contains no unresolved placeholder and renders every object is established by oracle and correspondence, not proved.",
     technique="Coq proof on an executable template-engine model + exact-output correspondence + independent-semantics oracle", ref='5 C16'),
+ 'C17': dict(
+    text="Theorems on a model of the mediator's bookkeeping (ontology version, registered sources, last written version, closed flag; "
+         "the writer represented by its verdict per event) for EVERY history of source registrations, records and close calls and both "
+         "settings of ignore_invalid_events: every event in the output is preceded by an ontology item holding its source; only events "
+         "the writer accepted are written; without ignore_invalid_events an invalid event ends the run with an error. On a model of "
+         "ObjectTranscoder.generate (dotted selectors into nested dictionaries / lists / strings, empty marker elision, boolean "
+         "rendering, multi-target property map): every object value of a generated event comes from the record field the property map "
+         "names and is not an empty marker of that field; empty markers leaking between fields are refuted. Tied to the code by T2: "
+         "600 random records through the real generate vs the model (exact properties), ~100 histories of the real mediator vs the "
+         "model's output items. Oracle: histories through ObjectTranscoderMediator in every combination of ignore_invalid_events, "
+         "auto-repair normalize/drop, fallback transcoder, file / bytes output; the concatenated output re-parsed by a validating parser "
+         "and compared with the events the property map defines.",
+    note=TB + "the writer's validation / repair is a verdict in the mediator model (the outcome per record is decided by the harness from the "
+         "independent value-space statement; histories depending on repair are judged by the oracle only); the XML transcoder mediator "
+         "is not modelled. Open known finding: container-valued fields raise TypeError.",
+    technique="Coq proof on mediator bookkeeping + property-map models + record-level and history-level correspondence + re-parse oracle", ref='5 C17'),
  'C18': dict(
     text="Theorems over the collection-equivalence model: the verdict is true exactly when ontologies are equal and both "
          "collections have the same hashes with equal merged events (spec), symmetry, reflexivity, equivalence with the "
